@@ -522,3 +522,245 @@ Proof.
   repeat split; auto using beq_true.
 Qed.
 
+(* ================================================================ 5. refutations by witness (AdfWalk.wit_* files) *)
+Definition on_open {P : Type} (bs : bytes) (k : fstate -> ptr -> P) (d : P) : P :=
+  match database_open bs with Ok (f, r) => k f r | _ => d end.
+
+(* the valid witness: opens, both children are found, the walk is clean *)
+Lemma wit_valid_ok :
+  on_open wit_valid (fun f r => check_4_child_name f r [66] = Ok (Some (0, 1130)) /\
+                                 get_node_id LINK_FUEL f r [66] = Ok (0, 1130)) False /\
+  forallb (fun e => match e with EvG r => clean r | EvN _ r => clean r | EvFuel => false | _ => true end)
+          (walk_events (walk 10 wit_valid)) = true.
+Proof. vm_compute. repeat split; reflexivity. Qed.
+
+(* section 6 #12: same file, header field entries_for_sub_nodes 00000008 -> 00000002 *)
+Lemma wit_oobw_is_one_field : wit_oobw = firstn 342 wit_valid ++ hexenc 8 2 ++ skipn 350 wit_valid.
+Proof. vm_compute. reflexivity. Qed.
+
+Theorem oob_write_refuted :
+  exists bs, on_open bs (fun f r => check_4_child_name f r [66] = OOBW 1 /\
+                                    get_node_id LINK_FUEL f r [66] = OOBW 1) False.
+Proof. exists wit_oobw. vm_compute. split; reflexivity. Qed.
+
+Theorem oob_read_refuted :
+  exists bs, on_open bs (fun f r => check_4_child_name f r [66] = OOBR 1) False.
+Proof. exists wit_oobr. vm_compute. reflexivity. Qed.
+
+Theorem link_buffer_refuted :
+  exists bs, on_open bs (fun f r => get_link_path f (0, 884) 5200 5200 = OOBW 3 /\
+                                    match chase_link f (0, 884) with OOBW 3 => True | _ => False end) False.
+Proof. exists wit_biglink. vm_compute. split; [reflexivity|exact I]. Qed.
+
+Theorem link_recursion_refuted :
+  exists bs, on_open bs (fun f r => get_node_id LINK_FUEL f r [76] = Ok (0, 884) /\
+                                    match chase_link f (0, 884) with OutOfFuel => True | _ => False end) False.
+Proof. exists wit_linkrec. vm_compute. split; [reflexivity|exact I]. Qed.
+
+Theorem abort_refuted : exists bs, database_open bs = Abort.
+Proof. exists wit_abort. vm_compute. reflexivity. Qed.
+
+Theorem tagscan_refuted : exists bs, on_open bs (fun f r => match read_node_header f r with OOBR 5 => True | _ => False end) False.
+Proof. exists wit_tagscan. vm_compute. exact I. Qed.
+
+Theorem stale_refuted : exists bs, on_open bs (fun f r => match read_node_header f r with Stale => True | _ => False end) False.
+Proof. exists wit_stale. vm_compute. exact I. Qed.
+
+(* a child pointer redirected to an ancestor: the walk runs out of fuel whatever the fuel *)
+Definition cyc_f : fstate := on_open wit_cycle (fun f _ => f) (mkfile []).
+Definition cyc_root : ptr := (0, 266).
+
+Lemma cyc_gni : get_node_id LINK_FUEL cyc_f cyc_root [65] = Ok cyc_root.
+Proof. vm_compute. reflexivity. Qed.
+Lemma cyc_visit d : snd (visit cyc_f cyc_root d) = Some [(cyc_root, [65], d + 1); (cyc_root, [66], d + 1)].
+Proof. vm_compute. reflexivity. Qed.
+
+Lemma last_cons_app {A} (a : A) l1 l2 d : l2 <> [] -> last (a :: l1 ++ l2) d = last l2 d.
+Proof.
+  intros H. change (a :: l1 ++ l2) with ((a :: l1) ++ l2). generalize (a :: l1). clear a l1.
+  induction l as [|x l IH]; simpl; [reflexivity|].
+  destruct (l ++ l2) eqn:E; [apply app_eq_nil in E; destruct E; contradiction|]. exact IH.
+Qed.
+
+Lemma last_nonnil {A} (l : list A) d x : last l d = x -> x <> d -> l <> [].
+Proof. intros H Hx Hl. subst l. simpl in H. congruence. Qed.
+
+Lemma cyc_loop : forall n d rest, last (walk_loop n cyc_f ((cyc_root, [65], d) :: rest)) (EvD 0) = EvFuel.
+Proof.
+  induction n as [|n IH]; intros d rest; [reflexivity|].
+  cbn [walk_loop]. rewrite cyc_gni. destruct (visit cyc_f cyc_root d) as [evs k] eqn:E.
+  pose proof (cyc_visit d) as Hk. rewrite E in Hk. simpl in Hk. subst k.
+  change ([(cyc_root, [65], d + 1); (cyc_root, [66], d + 1)] ++ rest)
+    with ((cyc_root, [65], d + 1) :: (cyc_root, [66], d + 1) :: rest).
+  pose proof (IH (d + 1) ((cyc_root, [66], d + 1) :: rest)) as HW.
+  rewrite last_cons_app; [exact HW|]. eapply last_nonnil; [exact HW|discriminate].
+Qed.
+
+Theorem cycle_refuted : exists bs, forall n, last (walk_events (walk n bs)) (EvD 0) = EvFuel.
+Proof.
+  exists wit_cycle. intros n. unfold walk.
+  assert (Ho : database_open wit_cycle = Ok (cyc_f, cyc_root)) by (vm_compute; reflexivity).
+  rewrite Ho. destruct (visit cyc_f cyc_root 0) as [evs k] eqn:E.
+  pose proof (cyc_visit 0) as Hk. rewrite E in Hk. simpl in Hk. subst k. cbn [walk_events].
+  pose proof (cyc_loop n 1 [(cyc_root, [66], 1)]) as HL.
+  destruct evs as [|e evs]; [exact HL|].
+  change ((e :: evs) ++ ?x) with (e :: evs ++ x).
+  rewrite last_cons_app; [exact HL|]. eapply last_nonnil; [exact HL|discriminate].
+Qed.
+
+(* ================================================================ 6. the proposed repair closes site 1 for EVERY file *)
+(* [safe1 r]: r is not a memory error, except possibly the tag-scan over-read (site 5), which the repair of
+   ADFI_read_sub_node_table does not address *)
+Definition safe1 {A} (r : out A) : Prop :=
+  match r with OOBW _ => False | OOBR s => s = 5 | Uninit => False | _ => True end.
+
+Lemma bind_safe1 {A B} (x : out A) (f : A -> out B) : safe1 x -> (forall a, safe1 (f a)) -> safe1 (bind x f).
+Proof. destruct x; simpl; auto; try contradiction. Qed.
+Lemma recast_safe1 {A B} (r : out A) : safe1 r -> safe1 (@recast A B r).
+Proof. destruct r; simpl; auto. Qed.
+
+Lemma hex2uint_safe1 mn mx s : safe1 (hex2uint mn mx s).
+Proof. destruct (hex2uint_total mn mx s) as [(v & ->)|(e & ->)]; exact I. Qed.
+Lemma adjust_safe1 p : safe1 (adjust p).
+Proof. unfold adjust. destruct p as [b o]. destruct (_ <? _); [exact I|]. destruct (_ <? _); exact I. Qed.
+Lemma conv_int_safe1 fmt s : safe1 (conv_int fmt s).
+Proof.
+  unfold conv_int, conv_mode. destruct (fmt =? 78); [exact I|]. destruct (fmt =? 76); [exact I|].
+  destruct ((fmt =? 66) || (fmt =? 67)); exact I.
+Qed.
+Lemma dp_dec_safe1 a s : safe1 (dp_dec a s).
+Proof.
+  unfold dp_dec, dp_from_hex. destruct (fa_old a).
+  - apply bind_safe1; [apply hex2uint_safe1|intros]. apply bind_safe1; [apply hex2uint_safe1|intros; exact I].
+  - apply bind_safe1; [apply conv_int_safe1|intros]. apply bind_safe1; [apply conv_int_safe1|intros; exact I].
+Qed.
+Lemma read_file_safe1 f p len : 0 <= len -> safe1 (read_file f p len).
+Proof.
+  intros H. unfold read_file. destruct p as [b o].
+  destruct (_ >? BLK).
+  - destruct (_ >=? _); [exact I|]. destruct (Z.ltb_spec len 0); [exact I|]. destruct (_ =? _); [exact I|].
+    destruct (_ <=? _); exact I.
+  - destruct (_ >=? _); [exact I|]. destruct (_ <=? 0); [exact I|]. destruct (Z.ltb_spec len 0); [lia|].
+    destruct (_ =? _); [exact I|]. destruct (_ <=? _); exact I.
+Qed.
+Lemma rdpfd_safe1 f p : safe1 (rdpfd f p).
+Proof.
+  unfold rdpfd. destruct (_ >? _); [exact I|]. apply bind_safe1; [apply read_file_safe1; lia|intros; apply dp_dec_safe1].
+Qed.
+Lemma dec_node_header_safe1 a d : safe1 (dec_node_header a d).
+Proof. destruct (node_header_total a d) as [(h & ->)|[(e & ->)| ->]]; simpl; auto. Qed.
+Lemma read_node_header_safe1 f p : safe1 (read_node_header f p).
+Proof. unfold read_node_header. apply bind_safe1; [apply read_file_safe1; lia|intros; apply dec_node_header_safe1]. Qed.
+
+Lemma loopN_safe1 {S A} (step : S -> S + out A) :
+  (forall s r, step s = inr r -> safe1 r) -> forall n s, safe1 (of_loop (loopN step n s)).
+Proof.
+  intros H. induction n as [|n IH]; intros s; simpl; [exact I|].
+  destruct (step s) as [s'|r] eqn:E; [apply IH|]. simpl. eapply H; eauto.
+Qed.
+
+Lemma zstep_safe1 f s r : zstep f s = inr r -> safe1 r.
+Proof.
+  unfold zstep. destruct s as [count cur].
+  pose proof (adjust_safe1 (fst cur, snd cur + 1)) as HA.
+  destruct (adjust (fst cur, snd cur + 1)) as [cur'| | | | | | | | |] eqn:EA; intros H; try (inversion H; subst; simpl in *; auto; fail).
+  pose proof (read_file_safe1 f cur' 1 ltac:(lia)) as HR.
+  destruct (read_file f cur' 1) as [c| e | | | | | | | |] eqn:ER; try (inversion H; subst; simpl in *; auto; fail).
+  - destruct (_ =? 122); inversion H; subst; exact I.
+  - destruct (_ || _); inversion H; subst; exact I.
+Qed.
+
+Lemma read_chunk_length_safe1 f p : safe1 (read_chunk_length f p).
+Proof.
+  unfold read_chunk_length. destruct (_ && _); [exact I|]. destruct (_ && _); [exact I|].
+  apply bind_safe1; [apply read_file_safe1; lia|intros c0]. destruct (_ =? 122).
+  - apply bind_safe1; [apply loopN_safe1; apply zstep_safe1|intros]. apply bind_safe1; [apply adjust_safe1|intros; exact I].
+  - apply bind_safe1; [apply read_file_safe1; lia|intros info]. destruct (tag_eq_ci _ _).
+    + apply bind_safe1; [apply adjust_safe1|intros; exact I].
+    + apply bind_safe1; [apply dp_dec_safe1|intros; exact I].
+Qed.
+
+Lemma snt_step_safe1 f n cap : n <= cap -> forall s r, snt_step f n cap s = inr r -> safe1 r.
+Proof.
+  intros Hn [[i cur] acc] r. unfold snt_step. destruct (Z.geb_spec i n) as [Hi|Hi]; [intros H; inversion H; exact I|].
+  match goal with |- match ?X with _ => _ end = _ -> _ => assert (HS : safe1 X); [|destruct X; intros H; inversion H; subst; simpl in *; auto] end.
+  apply bind_safe1; [apply adjust_safe1|intros cur1]. apply bind_safe1; [apply read_file_safe1; lia|intros nm].
+  destruct (Z.geb_spec i cap); [lia|]. apply bind_safe1; [apply adjust_safe1|intros cur2].
+  apply bind_safe1; [apply rdpfd_safe1|intros; exact I].
+Qed.
+
+Lemma read_snt_fixed_safe1 f p cap : safe1 (read_sub_node_table_fixed f p cap).
+Proof.
+  unfold read_sub_node_table_fixed. apply bind_safe1; [apply read_chunk_length_safe1|intros [tag e]].
+  destruct (Z.gtb_spec (snt_count p e) cap); [exact I|].
+  apply bind_safe1; [apply adjust_safe1|intros cur]. apply loopN_safe1. apply snt_step_safe1. lia.
+Qed.
+
+Lemma c4c_loop_safe1 tbl cap snt name : forall n i, 0 <= i -> i + Z.of_nat n <= Z.of_nat (length tbl) ->
+  safe1 (c4c_loop true tbl cap snt name n i).
+Proof.
+  induction n as [|n IH]; intros i Hi Hb; [exact I|]. cbn [c4c_loop].
+  unfold tbl_get. destruct (nth_error tbl (Z.to_nat i)) as [e|] eqn:E.
+  - cbn [bind]. destruct (names_match _ _).
+    + apply bind_safe1; [apply adjust_safe1|intros; exact I].
+    + apply IH; lia.
+  - apply nth_error_None in E. lia.
+Qed.
+
+(* with the repair, ADFI_check_4_child_name performs no access outside sub_node_table[] and reads no cell it
+   did not fill -- for every file, every parent pointer, every name *)
+Theorem check_4_child_name_fixed_safe f parent name : safe1 (check_4_child_name_gen true f parent name).
+Proof.
+  unfold check_4_child_name_gen. apply bind_safe1; [apply read_node_header_safe1|intros h].
+  destruct (_ =? 0); [exact I|].
+  apply bind_safe1; [destruct (_ >? 0); [apply read_snt_fixed_safe1|exact I]|intros tbl].
+  apply c4c_loop_safe1; lia.
+Qed.
+
+(* ================================================================ 7. termination of the open-time operations *)
+Definition nofuel {A} (r : out A) : Prop := match r with OutOfFuel => False | _ => True end.
+Lemma bind_nofuel {A B} (x : out A) (f : A -> out B) : nofuel x -> (forall a, nofuel (f a)) -> nofuel (bind x f).
+Proof. destruct x; simpl; auto. Qed.
+Lemma hex2uint_nofuel mn mx s : nofuel (hex2uint mn mx s).
+Proof. destruct (hex2uint_total mn mx s) as [(v & ->)|(e & ->)]; exact I. Qed.
+Lemma conv_int_nofuel fmt s : nofuel (conv_int fmt s).
+Proof.
+  unfold conv_int, conv_mode. destruct (fmt =? 78); [exact I|]. destruct (fmt =? 76); [exact I|].
+  destruct ((fmt =? 66) || (fmt =? 67)); exact I.
+Qed.
+Lemma dp_dec_nofuel a s : nofuel (dp_dec a s).
+Proof.
+  unfold dp_dec, dp_from_hex. destruct (fa_old a).
+  - apply bind_nofuel; [apply hex2uint_nofuel|intros]. apply bind_nofuel; [apply hex2uint_nofuel|intros; exact I].
+  - apply bind_nofuel; [apply conv_int_nofuel|intros]. apply bind_nofuel; [apply conv_int_nofuel|intros; exact I].
+Qed.
+Lemma read_file_nofuel f p len : nofuel (read_file f p len).
+Proof.
+  unfold read_file. destruct p as [b o]. destruct (_ >? BLK).
+  - destruct (_ >=? _); [exact I|]. destruct (_ <? 0); [exact I|]. destruct (_ =? _); [exact I|]. destruct (_ <=? _); exact I.
+  - destruct (_ >=? _); [exact I|]. destruct (_ <=? 0); [exact I|]. destruct (_ <? 0); [exact I|].
+    destruct (_ =? _); [exact I|]. destruct (_ <=? _); exact I.
+Qed.
+Lemma hex_fields_nofuel n : forall s w mx, nofuel (hex_fields s w n mx).
+Proof.
+  induction n; intros; simpl; [exact I|]. apply bind_nofuel; [apply hex2uint_nofuel|intros].
+  apply bind_nofuel; [apply IHn|intros; exact I].
+Qed.
+Lemma dec_file_header_nofuel a d : nofuel (dec_file_header a d).
+Proof.
+  unfold dec_file_header. destruct (negb _); [exact I|]. destruct (_ || _); [exact I|].
+  apply bind_nofuel; [apply hex_fields_nofuel|intros]. repeat (apply bind_nofuel; [apply dp_dec_nofuel|intros]). exact I.
+Qed.
+
+(* cgio_check_file (ADF branch) is a pure function of the first 32 bytes; ADF_Database_Open performs a fixed
+   number of reads and decodes and no loop driven by file content: it returns Ok or Err (or one of the
+   distinguished outcomes Stale / Abort) on EVERY byte string, never OutOfFuel *)
+Theorem database_open_terminates bs : nofuel (database_open bs).
+Proof.
+  unfold database_open, read_file_header.
+  apply bind_nofuel; [apply bind_nofuel; [apply read_file_nofuel|intros; apply dec_file_header_nofuel]|intros h].
+  apply bind_nofuel; [destruct (_ =? 66); [exact I|destruct (_ =? 65); exact I]|intros old].
+  destruct (_ =? 62); [exact I|]. apply bind_nofuel; [apply hex2uint_nofuel|intros minor].
+  destruct (_ >? 2); [exact I|]. apply bind_nofuel; [unfold id_of_ptr; destruct (_ >=? _); exact I|intros root].
+  destruct (_ =? 78); [destruct (beq _ _); exact I|exact I].
+Qed.
